@@ -124,7 +124,22 @@ class Sim:
         self.enums = {}
         self.sender = None  # contextvar-free sender id for async campaigns (set by harness)
         self.tok_rules = scenario.get("tok_rules")
+        self.writes = {}
+        self.storage_faults = scenario.get("storage_faults", {})
         self.stats = {"cb": 0, "sends": 0, "raises": 0, "delays": 0, "vdelay": 0.0, "orphans": 0}
+
+    def storage_write(self, model, value):
+        """Called by property-backed generated models on every write of the state field."""
+        tag = self.tag_of(model)
+        n = self.writes.get(tag, 0)
+        self.writes[tag] = n + 1
+        fail = n in (self.storage_faults.get(tag) or ())
+        self.rec(k="wr", i=tag, n=n, v=enc(value), e=self.epoch, failed=fail)
+        if fail:
+            self.stats["storage_faults"] = self.stats.get("storage_faults", 0) + 1
+            e = SimStorageError(f"injected storage error at write {n}")
+            e.sim_id = ["storage", tag, self.epoch, 0, n]
+            raise e
 
     def rec(self, **kw):
         self.seq += 1
